@@ -27,7 +27,7 @@ CHECK = {'rule': 'rapid-generated signalling programs: context kind in {plain, i
                         {'test': '^TestPropTaskClose$', 'checks': 600, 'shards': 8, 'timeout': 3000, 'seed_offset': 700}]}}
 
 TEXT = {'technique': 'schedule-directed property testing (rapid): generated multi-goroutine signalling programs on five context/scope kinds with a '
-              'generated rendezvous plan for the verif yield point inside Stop, plus late/racing child creation and a swept two-goroutine race of child creation against the end of the parent (delay sweep over the duration of NewChild, thousands of rounds per case); invariants over the final state',
+              'generated rendezvous plan for the verif yield point inside Stop, plus late/racing child creation and a swept two-goroutine race of child creation against the end of the parent (delay sweep over the duration of NewChild, thousands of rounds per case) and registered tasks signalling their failure while the owner is inside Close (swept delay, 20 s watchdog); invariants over the final state',
  'level_text': 'Exploration with a directed schedule: the rendezvous at the yield point makes the check-then-close window deterministic (the double '
                'close fired in every paired case before the fix); all other interleavings are sampled under GOMAXPROCS 1/2/4/16.',
  'level_note': 'Hook contextscope.stop.gap (build tag verif) in both context implementations. Panics on harness goroutines are recovered and '
